@@ -86,3 +86,15 @@ package controllers
 //@   exit assert [fieldByField] newStatus.AssignedIPv4 == c.AssignedIPv4 && newStatus.AssignedIPv6 == c.AssignedIPv6 && newStatus.AvailableIPv4 == c.AvailableIPv4 && newStatus.AvailableIPv6 == c.AvailableIPv6
 //@   assert before Update: [written] pool.Status == newStatus
 //@   assert before CountersFetcher: [thisPool] arg0 == pool.Name
+
+// ---- C18: the resources handed to the parser are the name-sorted copies ----
+//@ func toConfig
+//@   abstract
+//@   assert before For: [pools] len(arg0.Pools) == len(fromK8s.Pools) && (forall a int, b int :: 0 <= a && a < b && b < len(arg0.Pools) ==> !(nameOf(arg0.Pools[b]) < nameOf(arg0.Pools[a])))
+//@   assert before For: [advs] len(arg0.L2Advs) == len(fromK8s.L2Advs) && (forall a int, b int :: 0 <= a && a < b && b < len(arg0.L2Advs) ==> !(nameOf(arg0.L2Advs[b]) < nameOf(arg0.L2Advs[a])))
+//@   assert before For: [bgpAdvs] len(arg0.BGPAdvs) == len(fromK8s.BGPAdvs) && (forall a int, b int :: 0 <= a && a < b && b < len(arg0.BGPAdvs) ==> !(nameOf(arg0.BGPAdvs[b]) < nameOf(arg0.BGPAdvs[a])))
+//@   assert before For: [nodes] len(arg0.Nodes) == len(fromK8s.Nodes) && (forall a int, b int :: 0 <= a && a < b && b < len(arg0.Nodes) ==> !(nameOf(arg0.Nodes[b]) < nameOf(arg0.Nodes[a])))
+//@   assert before For: [peers] len(arg0.Peers) == len(fromK8s.Peers) && (forall a int, b int :: 0 <= a && a < b && b < len(arg0.Peers) ==> !(nameOf(arg0.Peers[b]) < nameOf(arg0.Peers[a])))
+//@   assert before For: [namespaces] len(arg0.Namespaces) == len(fromK8s.Namespaces) && (forall a int, b int :: 0 <= a && a < b && b < len(arg0.Namespaces) ==> !(nameOf(arg0.Namespaces[b]) < nameOf(arg0.Namespaces[a])))
+//@   assert before For: [communities] len(arg0.Communities) == len(fromK8s.Communities) && (forall a int, b int :: 0 <= a && a < b && b < len(arg0.Communities) ==> !(nameOf(arg0.Communities[b]) < nameOf(arg0.Communities[a])))
+//@   assert before For: [bfd] len(arg0.BFDProfiles) == len(fromK8s.BFDProfiles) && (forall a int, b int :: 0 <= a && a < b && b < len(arg0.BFDProfiles) ==> !(nameOf(arg0.BFDProfiles[b]) < nameOf(arg0.BFDProfiles[a])))
